@@ -20,7 +20,8 @@ Definition upd {V} (m : Z -> V) (k : Z) (v : V) : Z -> V :=
 (** 1 unibi = 10^12 wei  (x/evm/const.go NativeToWei / WeiToNative) *)
 Definition WEI : Z := 1000000000000.
 Definition to_wei (n : Z) : Z := n * WEI.
-Definition to_native (w : Z) : Z := w / WEI.
+(* big.Int.Quo truncates toward zero (only visible for negative balances, which the interpreter never produces) *)
+Definition to_native (w : Z) : Z := Z.quot w WEI.
 
 (** ** Backing keeper (x/evm/keeper/statedb.go): auth account + bank balance + AccState *)
 Record kacct := { ka_bal : Z (* unibi *); ka_nonce : Z; ka_code : Z }.
